@@ -45,6 +45,18 @@ CLAIMS = {
         "Trusts the installed reference tools (node-semver 7.x cross-checked with 5.7.1, packaging 26.x cross-checked with 21.3, semver crate 1.0.28, maven-artifact 3.8.7 on '-'-qualifier candidates >= 0). Four listed findings are stepped around by narrow classes.",
         "DESIGN.md §7 C03, §4, §6.6",
     ),
+    "C12": (
+        "property-based testing (rapid) with exhaustive permutation of each generated list (<= 6 elements) against a harness reference model of filter + order",
+        "Generated-input search: for NPM, Maven and PyPI a requirement (range, tag, exact string, junk) and a list of distinct version records are generated; for every permutation of the list (all n! up to 6 elements, 24 sampled beyond) resolve.SortVersions, resolve.MatchRequirement and LocalClient.MatchingVersions must return the model's answer: exactly the satisfying versions in the documented ascending order. Holds on everything explored; not a proof.",
+        "Trusts Constraint.Match for single versions (C03 owns it) and the harness model written from the doc comments and the property statement.",
+        "DESIGN.md §7 C12",
+    ),
+    "C14": (
+        "model-based stateful property testing (rapid state machine) against a map-based reference model",
+        "Generated histories of AddVersion calls (new and repeated keys, changed attributes and requirements, Deleted-flagged versions, three systems) are applied to a LocalClient and to a map model; after every step all four client calls are compared with the model over the whole (small) key space. Holds on everything explored; not a proof.",
+        "Trusts the harness model (written from the doc comments and the property statement) and Constraint.Match for single versions.",
+        "DESIGN.md §7 C14",
+    ),
 }
 
 NOT_YET = "check under construction in this session (not yet claimed)"
